@@ -985,6 +985,12 @@ class IRGenerator:
         """
         arg_dt = self._resolve_type(env, route._ast_node.arg_type_ref)
         result_dt = self._resolve_type(env, route._ast_node.result_type_ref)
+        if route._ast_node.error_type_ref is None:
+            # The grammar lets the third type be left out.
+            raise InvalidSpec(
+                'Route %s must specify three data types (arg, result, error); '
+                'use Void if there is no error type.' % quote(route.name),
+                route._ast_node.lineno, route._ast_node.path)
         error_dt = self._resolve_type(env, route._ast_node.error_type_ref)
 
         ast_deprecated = route._ast_node.deprecated
